@@ -45,9 +45,17 @@ def oracle_wake(ctx, c, ir):
             worst = max(worst, e)
             if e > float(tol):
                 k = c.seq[1] if getattr(c, "seq", None) is not None else 0
+                hist = ""
+                if getattr(c, "seq", None) is not None:
+                    par = c.seq[0]
+                    ops = par.ops()
+                    hist = " (history on this object: " + "".join(
+                        dc.ops_text(ops[j], "" if j == 0 else ("<same profiles>; " if par.calls[j] == par.calls[j - 1] else "<profiles change>; "))
+                        + "wakePotential(); " for j in range(k + 1)).rstrip() + \
+                        " - judged against the CURRENT profiles and the CURRENT table of the impedance object)"
                 ctx.violation("impl-oracle", "wakePotential() differs from scaling * (direct DFT convolution) read at bucket*spacing+x"
-                              + (" on call %d on the same object (earlier calls with other profiles; call 1 of this object %s)"
-                                 % (k + 1, "agreed" if getattr(c.seq[0], "first_ok", None) else "differed too") if k else ""),
+                              + (" on call %d on the same object (call 1 of this object %s)"
+                                 % (k + 1, "agreed" if getattr(c.seq[0], "first_ok", None) else "differed too") if k else "") + hist,
                               case=c.replay(), observed=dict(b=b, x=x, value=float(got), call=k + 1), expected=dict(value=exp, tol=float(tol)),
                               sig=dict(kind="wake", clause="convolution", later_call=k > 0))
                 if getattr(c, "seq", None) is not None and k == 0:
@@ -253,6 +261,7 @@ def replay(ctx, rp):
         # the recorded sequence of calls on one object; every call judged by the oracle and the model
         case.calls = [[fx(p) for p in profs] for profs in c["calls"]]
         case.between = c.get("between")
+        case.zadd = [[(fx(zr), fx(zi)) for zr, zi in zs] for zs in c.get("zadd", [])]
         sr = dc.run_impl(ctx, case.impl_text("wakeseq"))
         cks = [case.call_case(k) for k in range(len(case.calls))]
         ir = {ck.cid: dc.call_record(sr[case.cid], k) for k, ck in enumerate(cks)}
